@@ -240,8 +240,10 @@ void ConnEnd::connect(ConnRef *conn)
     COLA_ASSERT(m_anchor_obj);
     COLA_ASSERT(m_conn_ref == nullptr);
 
-    m_anchor_obj->addFollowingConnEnd(this);
+    // The set of following ConnEnds is ordered by connector, so set the
+    // connector before inserting this ConnEnd into it.
     m_conn_ref = conn;
+    m_anchor_obj->addFollowingConnEnd(this);
 }
 
 
